@@ -131,6 +131,48 @@ func (t *c16Tr) enclosing(pos token.Pos) *ast.FuncDecl {
 func (t *c16Tr) resolve(e ast.Expr, via string) error {
 	switch x := ast.Unparen(e).(type) {
 	case *ast.CallExpr:
+		// a call of a function of this package that returns the userinfo (a constructor helper):
+		// the userinfo is whatever its return statements yield
+		if fd := t.callee(x); fd != nil && fd.Body != nil {
+			key := fmt.Sprintf("call %p", fd)
+			if t.busy[key] {
+				return nil // recursion adds no new source
+			}
+			t.busy[key] = true
+			defer delete(t.busy, key)
+			if fd.Type.Results == nil || fd.Type.Results.NumFields() != 1 {
+				return t.errf(e, "userinfo produced by %s, which does not have exactly one result", fd.Name.Name)
+			}
+			found := 0
+			var err error
+			ast.Inspect(fd.Body, func(n ast.Node) bool {
+				if err != nil {
+					return false
+				}
+				switch n := n.(type) {
+				case *ast.FuncLit:
+					return false // returns of a nested literal are not returns of fd
+				case *ast.ReturnStmt:
+					found++
+					switch {
+					case len(n.Results) == 1:
+						err = t.resolve(n.Results[0], via+" via "+fd.Name.Name+"()")
+					case len(n.Results) == 0 && len(fd.Type.Results.List[0].Names) == 1:
+						err = t.resolve(fd.Type.Results.List[0].Names[0], via+" via "+fd.Name.Name+"()")
+					default:
+						err = t.errf(n, "return statement of %s that the translator cannot follow", fd.Name.Name)
+					}
+				}
+				return true
+			})
+			if err != nil {
+				return err
+			}
+			if found == 0 {
+				return t.errf(e, "%s has no return statement", fd.Name.Name)
+			}
+			return nil
+		}
 		sel, isSel := ast.Unparen(x.Fun).(*ast.SelectorExpr)
 		if !isSel {
 			return t.errf(e, "userinfo produced by a call other than url.UserPassword / url.User")
@@ -168,6 +210,9 @@ func (t *c16Tr) resolve(e ast.Expr, via string) error {
 		return nil
 	case *ast.Ident:
 		v, isVar := t.info.Uses[x].(*types.Var)
+		if !isVar {
+			v, isVar = t.info.Defs[x].(*types.Var) // a named result followed from a bare return
+		}
 		if !isVar {
 			return t.errf(e, "userinfo %s is not a variable", x.Name)
 		}
